@@ -258,3 +258,14 @@ func replayFile(t *testing.T, p *Profile, r *rep.Report, path string) {
 		fmt.Println("REPLAY-OK")
 	}
 }
+
+// RunEvents executes one fixed history (used by enumerations over inputs).
+func RunEvents(t *testing.T, p *Profile, cfg Config, events []Event, r *rep.Report) {
+	v, rp := runOne(t, p, rep.FixedChooser(nil), &cfg, events, r)
+	if v != nil && (p.Tags == nil || p.Tags[v.Tag] || v.Tag == "fatal" || v.Tag == "harness" || v.Tag == "stray") {
+		r.Violate(rep.Violation{Oracle: v.Tag, Signature: v.Sig, Detail: v.Detail, Replay: rp})
+	}
+	if len(events) > 0 {
+		r.Class(lastResp(rp.Trace))
+	}
+}
